@@ -347,6 +347,10 @@ func (s *Sorter) SortedBlocks(ctx context.Context, removedCols map[int]struct{},
 				if s.profiler != nil {
 					s.profiler.Process(row)
 				}
+				if len(blkPK) == 0 {
+					blkPK = blkPK[:len(pkIndices)]
+					copy(blkPK, rowPK)
+				}
 			}
 
 			if minInd < n {
@@ -354,10 +358,6 @@ func (s *Sorter) SortedBlocks(ctx context.Context, removedCols map[int]struct{},
 			} else {
 				s.current = s.current[1:]
 				currentBlock = nil
-			}
-			if len(blkPK) == 0 {
-				blkPK = blkPK[:len(pkIndices)]
-				copy(blkPK, rowPK)
 			}
 			if len(blk) == 255 {
 				b := &Block{
